@@ -96,6 +96,23 @@ def schedule_case(case, ctx):
             ctx.label("duplicated_query")
         if len(order) < len(Qs):
             ctx.label("subset")
+    if case.get("strand_history"):
+        # a forward-only scan of a set that already holds both orientations, right after a two-strand scan of the plain set with the
+        # same queries: same shapes of every work buffer, so anything the first call leaves behind would be picked up by the second
+        both = Ts + [numpy.ascontiguousarray(t[::-1, ::-1]) for t in Ts]
+        c2 = dict(case, rc=False)
+        try:
+            base2 = [_run([q], both, c2, 1) for q in Qs]
+        except Exception as e:  # noqa: BLE001
+            raise Rejected() from e
+        nj = min(case["schedules"][0]["n_jobs"], MAXT)
+        sut(_run, Qs, Ts, dict(case, rc=True), nj)
+        res2 = sut(_run, Qs, both, c2, nj)
+        for qi in range(len(Qs)):
+            require(torch.equal(res2[:, qi], base2[qi][:, 0]), "result-depends-on-earlier-call",
+                    lambda: "query %d: forward-only scan after a two-strand scan gives %s, alone it gives %s" % (
+                        qi, res2[:, qi].tolist(), base2[qi][:, 0].tolist()))
+        ctx.label("forward_scan_after_two_strand_scan")
     ctx.nt(nt_flag)
     ctx.label("rc" if case["rc"] else "no_rc", "hashing" if case.get("n_target_bins") else "no_hashing")
 
@@ -214,6 +231,7 @@ def schedule_strategy(draw):
     if draw(st.integers(0, 2)) == 0:
         # query lists are often heterogeneous (one-hot int8 seqlets next to float PWMs): a query's result may not depend on its neighbours' dtype
         case["query_dtypes"] = [draw(st.sampled_from(["int8", "float32", "float64", "float64"])) for _ in range(nQ)]
+    case["strand_history"] = draw(st.integers(0, 2)) == 0
     return case
 
 
